@@ -5,7 +5,7 @@ PATCH=$(readlink -f "$1"); ID=$2; TIER=${3:-quick}
 S=$(mktemp -d /tmp/mut.XXXXXX)
 trap 'rm -rf "$S"' EXIT
 mkdir -p "$S/repo"
-(cd /repo && git ls-files -z src pyproject.toml | xargs -0 cp --parents -t "$S/repo") || exit 2
+rsync -a --exclude .git --exclude __pycache__ --exclude docs /repo/ "$S/repo/" || exit 2
 (cd "$S/repo" && patch -p1 -s < "$PATCH") || { echo "PATCH DOES NOT APPLY"; exit 3; }
 cd "$(dirname "$0")/.."
 VERIF_REPO="$S/repo" VERIF_NO_EVIDENCE=1 ./check "$ID" --tier "$TIER" > "$S/out" 2>&1; rc=$?
